@@ -52,6 +52,8 @@ for _i, _o in enumerate(OPS):
     _cells[f'F{_i + 1}'] = f'=A1{XL[_o]}""'           # empty text literal
     _cells[f'G{_i + 1}'] = f'=A3{XL[_o]}B3'          # both operands hold *text* in the workbook (overridden with numbers)
     _cells[f'H{_i + 1}'] = f'=A3{XL[_o]}"kiwi"'       # text cell against a text literal
+    _cells[f'I{_i + 1}'] = f'=A3{XL[_o]}"10"'         # text cell against a numeric-looking text literal
+    _cells[f'J{_i + 1}'] = f'="10"{XL[_o]}A3'         # the same, mirrored
 TRANSLATE_ERRORS = []
 try:
     KF = build.load_class(build.translate_formulas(_cells, {'A1': 1, 'B1': 2, 'A3': 'pear', 'B3': 'apple'}), '_kf')
@@ -183,6 +185,14 @@ def run(report, tier, seed):
         lt, le, gt, ge, eq, ne = [ev('D' + str(k + 1), A1=a) for k in range(6)]
         return (1 if lt else 0) + (1 if eq else 0) + (1 if gt else 0) == 1 and ne == (not eq) and le == (not gt) and ge == (not lt)
     ''', encodes=fenc, requires='KF is not None', timeout=T * 2)
+    s.add('f_numeric_looking_text_vs_literal_laws', 'a: str', "1 <= len(a) <= 3 and all(c in '10.a' for c in a)", '''
+        a = realize(a)
+        lt, le, gt, ge, eq, ne = [ev('I' + str(k + 1), A3=a) for k in range(6)]
+        rlt, rle, rgt, rge, req, rne = [ev('J' + str(k + 1), A3=a) for k in range(6)]
+        one = (1 if lt else 0) + (1 if eq else 0) + (1 if gt else 0) == 1
+        return (one and ne == (not eq) and le == (not gt) and ge == (not lt) and lt == rgt and gt == rlt and eq == req and ne == rne
+                and [lt, le, gt, ge, eq, ne] == list(cmp6(a, '10')))
+    ''', encodes=fenc, requires='KF is not None', timeout=T * 3)
     s.add('f_literal_right', 'a: float, op: int', '0 <= op < 6 and fin(a)', '''
         return ev('D' + str(op + 1), A1=a) == pyop(op, a, 2.5)
     ''', encodes=fenc, requires='KF is not None')
